@@ -1,4 +1,5 @@
 import Octo.Lemmas.TrigSimple
+import Octo.Lemmas.TrigBufferOrder
 /-!
 # C16 — Triggers change when results appear, never what the final result is
 
@@ -73,6 +74,21 @@ theorem C16_full : Statement wlessFixed := by
   refine ⟨gbRun wlessFixed C (buffer s), by simp [run, hall], fun row => ?_⟩
   rw [trigger_transparent C nk hC.keyLen hlive, table_eq_spec C nk hC _ hs.validBuffered]
   exact groupSpec_congr C nk hC _ _ (fun row' => net_buffer s hs.etRange row') hs.validBuffered hs.valid row
+
+/-- **The second validity hypothesis is automatic when the event time is a function of the row** (a record's
+    event time is one of its columns, as it is whenever the stream is grouped by its time field; or no record
+    has an event time): the event-time buffer keeps the order of the records of one event time, so a valid
+    changelog is still valid in the order in which it is released. -/
+theorem validBuffered_of_etByRow (s : List Msg) (hs : EtInRange s) (hE : EtByRow (recs s))
+    (hv : ValidLog (recs s)) : ValidLog (recs (buffer s)) :=
+  validLog_buffer s hs hE hv
+
+/-- C16 for streams whose event time is determined by the row: one validity hypothesis, on the input as given. -/
+theorem C16_event_time_column (C : GBConf) (nk : Nat) (hC : ConfGood C nk) (hlive : C.cfg.live = true)
+    (s : List Msg) (hv : ValidLog (recs s)) (hE : EtByRow (recs s)) (hr : EtInRange s)
+    (hp : ∀ r ∈ recs s, stepOk C r.vals = true) :
+    ∃ out, run wlessFixed C s = some out ∧ ∀ row, net (recs out) row = groupSpec C nk (recs s) row :=
+  C16_full C nk hC hlive s ⟨hv, validLog_buffer s hr hE hv, hr, hp⟩
 
 /-- **`SimpleGroupBy` — the node the planner picks for the default trigger — computes the batch grouping.** -/
 theorem simple_is_groupSpec (C : GBConf) (nk : Nat) (hC : ConfGood C nk) (s : List Msg) (hv : ValidLog (recs s))
